@@ -247,6 +247,13 @@ func nativeRun(repo, verif, scratch, pkgRel string, harnessFns []string, cases [
 		}
 		return nil
 	})
+	ip, err := interposeOverlays(repo, verif, scratch, pkgRel)
+	if err != nil {
+		return nil, "", err
+	}
+	for k, v := range ip {
+		repl[k] = v
+	}
 	ovb, _ := json.Marshal(map[string]interface{}{"Replace": repl})
 	ovFile := filepath.Join(scratch, "overlay_"+tag+".json")
 	os.WriteFile(ovFile, ovb, 0644)
@@ -418,6 +425,13 @@ func checkCmd(args []string) int {
 	close(ch)
 	wg.Wait()
 	exploreS := time.Since(t0).Seconds() - loadS
+	if os.Getenv("VERIF_SLOW") != "" {
+		sj := append([]*job(nil), jobs...)
+		sort.Slice(sj, func(a, b int) bool { return sj[a].res.WallS > sj[b].res.WallS })
+		for i := 0; i < 12 && i < len(sj); i++ {
+			fmt.Printf("slow job %.1fs %s %v queries=%v unknownfeas=%d paths=%d\n", sj[i].res.WallS, sj[i].h.Name, sj[i].params, sj[i].res.Queries, sj[i].res.Stats.UnknownFeas, sj[i].res.Stats.Paths)
+		}
+	}
 
 	// aggregate
 	type hAgg struct {
